@@ -503,7 +503,7 @@ Cfg(o, e) ==
 EpochTags == {"C03.AckedConsecutive", "C04.AckMissing", "C04.AckSpurious", "C04.AckExact", "C04.DeliverIff"}
 \* C05 speaks of telegrams "accepted for delivery to the application exactly once": a telegram the application receives
 \* twice, or never although it was accepted (C04's delivery clauses), is reported under C05 as well.
-AppTags == {"C04.NoDupDelivery", "C04.NothingLost"}
+AppTags == {"C04.NoDupDelivery", "C04.NothingLost", "C04.DeliverIff"}
 Alias(o) ==
   LET o1 == IF o.epoch >= 2 /\ (\E i \in 1..Len(o.bad) : o.bad[i] \in EpochTags) /\ ~(\E i \in 1..Len(o.bad) : o.bad[i] = "C09.EpochFresh")
             THEN [o EXCEPT !.bad = Append(@, "C09.EpochFresh")] ELSE o
@@ -525,7 +525,9 @@ Step0(o, e) ==
     [] e.k = "In"   -> In(oc, e)
     \* a failed socket write: after a TRANSIENT failure (announced by SockFail "once") the tunnel goes on - a failed
     \* acknowledgement is merely logged, a failed request makes its Send fail, a failed heartbeat may lead to a reconnect
-    [] e.k = "OutErr" -> [oc EXCEPT !.cause = TRUE, !.termCause = @ \/ ~oc.failOnce, !.failOnce = FALSE]
+    \* (a failed write of the acknowledgement that was due counts as the attempt: none is missing)
+    [] e.k = "OutErr" -> [oc EXCEPT !.cause = TRUE, !.termCause = @ \/ ~oc.failOnce, !.failOnce = FALSE,
+                                    !.ackDue = IF e.svc = "TunnelRes" /\ e.ch = oc.ackDue.ch /\ e.seq = oc.ackDue.seq THEN [ch |-> -1, seq |-> -1] ELSE @]
     [] e.k = "SendCall" -> [oc EXCEPT !.called = @ \cup {e.pid}, !.senders = @ \cup {e.g},
                                       !.afterDead = IF oc.dead /\ oc.exact /\ oc.idles > oc.deadIdle THEN @ \cup {e.pid} ELSE @,
                                       !.afterClose = IF oc.closeRet THEN @ \cup {e.pid} ELSE @]
